@@ -43,3 +43,66 @@ func VerifTeeRead() {
 	zzverif.Assert(s.closes == 1, "tee_source_closed_once")
 	zzverif.Cover("tee_done")
 }
+
+type vCloseSink struct {
+	vSink
+	closes int
+	err    error
+}
+
+func (w *vCloseSink) Close() error {
+	w.closes++
+	return w.err
+}
+
+// Stop and Close of a TeeReadCloser whose writer can be closed too: Stop closes the writer (once) and not the source,
+// returns the writer's error, and every later Read fails with io.ErrClosedPipe without touching the source; Close
+// closes the source exactly once and the writer, reports their errors, and later Reads
+// fail the same way; what was read before is what the writer received.
+//
+//verif:harness prop=C16 name=tee_stop_close unwind=12
+func VerifTeeStopClose() {
+	L := 1 + zzverif.Choose("L", 3)
+	d := zzverif.Bytes("data", L)
+	s := &vSrc{data: d, eofWithData: zzverif.Bool("eofWithData"), maxZero: 1, failAt: -1}
+	w := &vCloseSink{}
+	if zzverif.Bool("writer_close_fails") {
+		w.err = vErrSrc
+	}
+	t := NewTeeReadCloser(s, w)
+	buf := make([]byte, 1+zzverif.Choose("bufsize", 2))
+	var out []byte
+	k := zzverif.Choose("reads_before", 3)
+	for i := 0; i < k; i++ {
+		n, err := t.Read(buf)
+		out = append(out, buf[:n]...)
+		if err != nil {
+			break
+		}
+	}
+	zzverif.Assert(len(w.got) == len(out) && zzverif.EqBytes(w.got, out), "tee_writer_in_step")
+	stopFirst := zzverif.Bool("stop_first")
+	if stopFirst {
+		err := t.Stop()
+		zzverif.Assert(err == w.err, "stop_returns_writer_close_error")
+		zzverif.Assert(w.closes == 1 && s.closes == 0, "stop_closes_writer_only")
+		reads := s.reads
+		n, err := t.Read(buf)
+		zzverif.Assert(n == 0 && err == io.ErrClosedPipe, "read_after_stop_is_closed_pipe")
+		zzverif.Assert(s.reads == reads, "read_after_stop_does_not_touch_source")
+		zzverif.Assert(len(w.got) == len(out), "nothing_written_after_stop")
+	}
+	err := t.Close()
+	zzverif.Assert(s.closes == 1, "close_closes_source_once")
+	zzverif.Assert(w.closes >= 1, "writer_closed")
+	if !stopFirst {
+		zzverif.Assert((err != nil) == (w.err != nil), "close_reports_writer_close_error")
+	} else {
+		zzverif.Assert(err == nil, "close_after_stop_has_nothing_to_report")
+	}
+	n, err := t.Read(buf)
+	zzverif.Assert(n == 0 && err == io.ErrClosedPipe, "read_after_close_is_closed_pipe")
+	t.Close()
+	zzverif.Assert(s.closes == 1, "second_close_does_not_close_source_again")
+	zzverif.Cover("tee_stop_close_done")
+}
